@@ -368,7 +368,7 @@ impl C11 {
 impl Prop for C11 {
     fn cases(&self, tier: Tier) -> u64 {
         match tier {
-            Tier::Quick => 300_000,
+            Tier::Quick => 900_000,
             Tier::Thorough => 12_000_000,
         }
     }
